@@ -11,7 +11,7 @@ import (
 func init() { register("C12", "exploration", checkC12) }
 
 func checkC12(c *hx.Ctx) {
-	c.Rule("(a) intake: update and recover requests for every pairing of revealed key K_i and next commitment c_h(K_j) (4 keys x 4 keys x reveal hash {sha2-256, sha2-512} x commitment hash {sha2-256, sha2-512} x protocols allowing [256], [512], [256,512], [512,256]) and creates/recovers with equal/unequal update and recovery commitments - exhaustive; keys carrying nonces: the same key material seen under one nonce, then revealed and re-committed under another nonce in the same process; accepted iff the next commitment is not a commitment of the revealed key (under any enabled algorithm) and update != recovery commitment; (b) resolution: commitment cycles of length 1-5 (every rotation, every anchoring order of up to 5 operations, for the update and the recovery chain) under the online trace checker T3 (no commitment consumed twice, no successor already consumed) with step budget, compared with the reference model; non-trivial = pairing i==j or a history containing a full cycle")
+	c.Rule("(a) intake: update and recover requests for every pairing of revealed key K_i and next commitment c_h(K_j) (4 keys x 4 keys x reveal hash {sha2-256, sha2-512} x commitment hash {sha2-256, sha2-512} x protocols allowing [256], [512], [256,512], [512,256]) and creates/recovers with equal/unequal update and recovery commitments - exhaustive; keys carrying nonces: the same key material seen under one nonce, then revealed and re-committed under another nonce in the same process; accepted iff the next commitment is not a commitment of the revealed key (under any enabled algorithm) and update != recovery commitment; (b) resolution: commitment cycles of length 1-5 (every rotation, every anchoring order of up to 5 operations, for the update and the recovery chain) (also with a legitimate later competitor of the cycle-closing operation, and with a protocol upgrade in the middle of the chain) under the online trace checker T3 (no commitment consumed twice, no successor already consumed) with step budget, compared with the reference model; non-trivial = pairing i==j or a history containing a full cycle")
 	c.Set("exhaustive", true)
 	rng := c.Rng("keys")
 	typeSets := [][]string{{"P-256", "Ed25519", "secp256k1", "P-384"}}
@@ -225,6 +225,7 @@ func checkC12(c *hx.Ctx) {
 		ops    []*ref.Op // cycle ops in chain order (last closes the cycle)
 		k      int
 		kind   string
+		alt    *ref.Op // a legitimate competitor of the operation that closes the cycle (same revealed key, fresh successor)
 	}
 	var cycles []cyc
 	cr := c.Rng("cycles")
@@ -274,7 +275,8 @@ func checkC12(c *hx.Ctx) {
 					if pre > 0 && kind == "update" {
 						ops = append(ops, u.MkSigned("upd:back-to-start", "update", ring[k-1], "", start.Commitment(u.Code), nil, SignedOpts{DeltaStatus: ref.DeltaFails}))
 					}
-					cycles = append(cycles, cyc{u, prefix, ops, k, kind})
+					alt := mk(kind[:3]+":alt-to-fresh", ring[k-1], newKey("fresh"), 77)
+					cycles = append(cycles, cyc{u, prefix, ops, k, kind, alt})
 				}
 			}
 		}
@@ -288,11 +290,11 @@ func checkC12(c *hx.Ctx) {
 		hx.Parallel(len(orders), 16, func(oi int) {
 			ord := orders[oi]
 			// variants: 0 plain; 1 every op replayed later; 2/3 the last one / two operations of the anchoring order are unpublished
-			for variant := 0; variant < 4; variant++ {
+			for variant := 0; variant < 6; variant++ {
 				if c.Violations() > 8 {
 					return
 				}
-				if variant >= 2 && cy.kind == "recover" {
+				if (variant == 2 || variant == 3) && cy.kind == "recover" {
 					continue // unpublished full operations followed by published updates are outside the statements (Appendix B)
 				}
 				H := []*ref.Op{Place(cy.u.Ops["C"], 1000, 9, "refC", p.GenesisTime)}
@@ -305,10 +307,24 @@ func checkC12(c *hx.Ctx) {
 					}
 					refID := fmt.Sprintf("ref%d", pos)
 					t := uint64(1010 + 10*pos)
-					if variant >= 2 && pos >= len(ord)-(variant-1) {
+					if (variant == 2 || variant == 3) && pos >= len(ord)-(variant-1) {
 						refID, t = "", uint64(5000+pos) // unpublished
 					}
 					H = append(H, Place(cy.ops[idx], t, uint64(len(ord)-pos), refID, p.GenesisTime))
+				}
+				if variant == 4 {
+					// a legitimate competitor of the cycle-closing operation, anchored after it: it wins, the closing one never applies
+					H = append(H, Place(cy.alt, 1300, 0, "refAlt", p.GenesisTime))
+				}
+				upgradeAt := uint64(0)
+				if variant == 5 {
+					// a protocol upgrade (same parameters) in the middle of the chain: what was consumed before it stays consumed
+					upgradeAt = 1015
+					for _, o := range H {
+						if o.Time >= upgradeAt && o.Published() {
+							o.Version = upgradeAt
+						}
+					}
 				}
 				if variant == 1 {
 					for pos, idx := range ord {
@@ -319,8 +335,8 @@ func checkC12(c *hx.Ctx) {
 				}
 				c.Eval()
 				st, merr := ref.Resolve(H, ref.ResolveOpts{})
-				rm, err, ta, exceeded := tracedResolve(p, cy.u.Suffix, H, nil)
-				replay := map[string]interface{}{"suffix": cy.u.Suffix, "history": replayOps(H), "cycle_length": cy.k, "chain": cy.kind, "prefix": len(cy.prefix)}
+				rm, err, ta, exceeded := tracedResolveUpgrade(p, cy.u.Suffix, H, upgradeAt)
+				replay := map[string]interface{}{"suffix": cy.u.Suffix, "history": replayOps(H), "cycle_length": cy.k, "chain": cy.kind, "prefix": len(cy.prefix), "variant": variant}
 				if exceeded {
 					c.Violation("C12 step budget exceeded on a cyclic history (commitment revisited / non-termination): "+histString(H), replay)
 					return
@@ -336,7 +352,11 @@ func checkC12(c *hx.Ctx) {
 					return
 				}
 				// the op closing the cycle must never be applied: at most k-1 of the cycle ops (k=1: none) on top of the prefix
-				if merr == nil && len(st.Applied)-1-len(cy.prefix) > cy.k-1 {
+				allowed := cy.k - 1
+				if variant == 4 {
+					allowed++ // the legitimate competitor
+				}
+				if merr == nil && len(st.Applied)-1-len(cy.prefix) > allowed {
 					c.Violation("C12 reference model applied a full cycle (model defect)", replay)
 					return
 				}
@@ -344,8 +364,14 @@ func checkC12(c *hx.Ctx) {
 				if len(cy.prefix) > 0 {
 					c.Count("cycles_after_a_legitimate_prefix")
 				}
-				if variant >= 2 {
+				if variant == 2 || variant == 3 {
 					c.Count("cycles_closed_by_unpublished_operations")
+				}
+				if variant == 4 {
+					c.Count("cycles_with_a_legitimate_competitor_of_the_closing_operation")
+				}
+				if variant == 5 {
+					c.Count("cycles_spanning_a_protocol_upgrade")
 				}
 				c.CountN("applied_cycle_ops", len(st.Applied)-1)
 				c.Distinct(histString(H))
@@ -355,6 +381,8 @@ func checkC12(c *hx.Ctx) {
 	}
 	c.Floor("cycles_after_a_legitimate_prefix", 50)
 	c.Floor("cycles_closed_by_unpublished_operations", 50)
+	c.Floor("cycles_with_a_legitimate_competitor_of_the_closing_operation", 50)
+	c.Floor("cycles_spanning_a_protocol_upgrade", 50)
 	c.Floor("self_commit_rejected:update", 16)
 	c.Floor("self_commit_with_nonce_rejected:update", 5)
 	c.Floor("self_commit_with_alternative_spelling_rejected:update", 3)
